@@ -200,6 +200,56 @@ func ruleFillRuleMirror(rule string, minSwitches int) func(*Ctx) {
 				}
 				fn := declName(fd)
 				k := 0
+				// a function that NORMALISES the counts first (`case Negative: wc, wc2 = -wc, -wc2`, nothing for
+				// Positive) realises the mirror by construction: its later switches treat the normalised counts
+				// alike for both rules, which the syntactic arm-by-arm mirror cannot express. What such a function
+				// decides is checked on the explored truth tables (C01.table, C19.ident).
+				normalises := false
+				ast.Inspect(fd.Body, func(nd ast.Node) bool {
+					sw, ok := nd.(*ast.SwitchStmt)
+					if !ok || sw.Tag == nil {
+						return true
+					}
+					for _, st := range sw.Body.List {
+						cc := st.(*ast.CaseClause)
+						if len(cc.List) != 1 || render(cc.List[0]) != "Negative" || len(cc.Body) == 0 {
+							continue
+						}
+						all := true
+						for _, b := range cc.Body {
+							as, ok := b.(*ast.AssignStmt)
+							if !ok || len(as.Lhs) != len(as.Rhs) {
+								all = false
+								break
+							}
+							for i := range as.Lhs {
+								u, ok := as.Rhs[i].(*ast.UnaryExpr)
+								id, isID := as.Lhs[i].(*ast.Ident)
+								if !ok || !isID || u.Op != token.SUB || render(u.X) != id.Name {
+									all = false
+								}
+							}
+						}
+						posEmpty := true
+						for _, st2 := range sw.Body.List {
+							c2 := st2.(*ast.CaseClause)
+							for _, e := range c2.List {
+								if render(e) == "Positive" && len(c2.Body) > 0 {
+									posEmpty = false
+								}
+							}
+						}
+						if all && posEmpty {
+							normalises = true
+						}
+					}
+					return true
+				})
+				if normalises {
+					n++
+					c.pass(rule, fmt.Sprintf("%s:%s:normalised", rule, fn), fd.Pos(), fn, "the counts are negated once for Negative and the rest of the function is shared by both rules (mirror by construction; the decisions are checked on the explored tables)")
+					continue
+				}
 				ast.Inspect(fd.Body, func(nd ast.Node) bool {
 					sw, ok := nd.(*ast.SwitchStmt)
 					if !ok || sw.Tag == nil {
